@@ -606,6 +606,16 @@ def gen_block(rnd, kind=None):
         elif r < 0.4:
             t1 = ("env", rnd.choice(ENV0))
             t2 = t1
+        elif r < 0.52:
+            # the same operation over the same load / hash computed twice: the two results only become one term after
+            # the loads have been unified
+            addr = ("c", rnd.choice(SMALL_ADDRS)) if rnd.random() < 0.6 else a
+            l = ("op", rnd.choice(["MLOAD", "MLOAD", "SLOAD"]), [addr])
+            if rnd.random() < 0.6:
+                t1 = ("op", rnd.choice(UN + ["BALANCE", "CALLDATALOAD", "EXTCODESIZE"]), [l])
+            else:
+                t1 = ("op", op, [l, ("c", rnd.choice([1, 2, 0x20]))] if rnd.random() < 0.5 else [b, l])
+            t2 = t1
         elif r < 0.75:
             # two *different* terms that a simplification rule makes equal: one operand goes through an identity
             # (ADD(a,0), MUL(a,1), AND(a,a), SUB(a,0), NOT(NOT(a)) ...), so the duplicate only appears after the rule
@@ -635,7 +645,11 @@ def gen_block(rnd, kind=None):
         extra = 2
         for _ in range(rnd.randrange(1, 3)):
             k = rnd.random()
-            if k < 0.4 and extra >= 2:
+            if k < 0.15 and extra >= 1:
+                # the (possibly replaced) value used for both operands of one instruction
+                out += [("DUP1", None), ("DUP1", None), (rnd.choice(["DIV", "SUB", "ADD", "LT", "BYTE"]), None)]
+                extra += 1
+            elif k < 0.4 and extra >= 2:
                 out.append((rnd.choice(["ADD", "MUL", "XOR", "SUB"]), None))
                 extra -= 1
             elif k < 0.8 and extra >= 1:
